@@ -97,6 +97,11 @@ pub fn agg_result_ty(agg: &Aggregator, prog: &Program, rel: &str, bound: &[Strin
       Aggregator::Count | Aggregator::CollectLen => Ty::Usize,
       Aggregator::Sum | Aggregator::Min | Aggregator::Max | Aggregator::Percentile(_) | Aggregator::Top2 => col_ty(),
       Aggregator::Mean => Ty::F64,
+      Aggregator::MinMax => match col_ty() {
+         Ty::I32 => Ty::PairI32,
+         Ty::U32 => Ty::PairU32,
+         t => panic!("min_max over {t:?}"),
+      },
       Aggregator::Not => Ty::Bool, // unit; never bound
    }
 }
@@ -318,6 +323,7 @@ fn p_aggregator(a: &Aggregator) -> String {
       Aggregator::Percentile(p) => format!("(::ascent::aggregators::percentile({p}.0))"),
       Aggregator::Top2 => "::vglue::aggs::top2".into(),
       Aggregator::CollectLen => "::vglue::aggs::collect_len".into(),
+      Aggregator::MinMax => "::vglue::aggs::min_max".into(),
       Aggregator::Not => "::ascent::aggregators::not".into(),
    }
 }
